@@ -122,7 +122,7 @@ def _square(t):
 
 
 UN_R = {"T": AB.UNARY["T"], "H": AB.UNARY["H"], "lmul": lambda a: [["lmul", "cj", a]],
-        "slice": lambda a: [["slice", a, rs, cs] for rs, cs in AB.SLICE_SPECS[2:4]]}
+        "slice": lambda a: [["slice", a, rs, cs] for rs, cs in AB.SLICE_SPECS[2:4] + AB.SLICE_SPECS[6:7]]}
 BI_R = {"matmul": AB.BINARY["matmul"], "add": AB.BINARY["add"], "kron": AB.BINARY["kron"],
         "BlockDiag": lambda a, b: [["BlockDiag", [a, b], [2, 1]]], "Concat": AB.BINARY["Concat"]}
 
